@@ -61,13 +61,19 @@ def e2(tier):
         m = _unescape(model.eval(enc.M, model_completion=True).as_string())
         p = _unescape(model.eval(enc.P, model_completion=True).as_string()) if with_prefix else None
         n = model.eval(enc.n, model_completion=True).as_long()
-        args = {"rows": rows, "m": m, "p": p, "n": n}
-        path = replay_file(PID, "harness.c09.store_case", args, f"{name}: solver model")
-        verdict, detail = replay_concrete(path)
-        if verdict == "FAIL":
-            info["violations"].append((path, f"{name} is satisfiable; replayed on a real SQLiteStore: {detail}"))
-            return True
-        os.unlink(path)
+        import itertools
+
+        # which rows survive a LIMIT depends on the (arbitrary) order among same-day rows: the
+        # insertion order is part of the database state the model stands for -- try them all
+        verdict = detail = None
+        for perm in itertools.islice(itertools.permutations(rows), 24):
+            args = {"rows": [list(r) for r in perm], "m": m, "p": p, "n": n}
+            path = replay_file(PID, "harness.c09.store_case", args, f"{name}: solver model")
+            verdict, detail = replay_concrete(path)
+            if verdict == "FAIL":
+                info["violations"].append((path, f"{name} is satisfiable; replayed on a real SQLiteStore: {detail}"))
+                return True
+            os.unlink(path)
         info.setdefault("engine_artefacts", []).append({"query": name, "args": args, "replay": [verdict, detail]})
         return False
 
@@ -167,13 +173,16 @@ def validate_selection(sqls, parsed, bounds, stats):
     sql, binding = sqls["filter_prefix"]
     q = parsed["filter_prefix"]
     e = smt.Encoding(1, bounds["module_len"], bounds["qualname_len"], bounds["prefix_len"])
-    sel = z3.And(*[e.cond(c, e.rows[0], binding) for c in q["where"]])
+    n_before = len(e.constraints)
+    out1, _count = e.evaluate(q, binding)
+    sel = out1[0]
+    aux = e.constraints[n_before:]  # LIMIT introduces auxiliary 'kept' variables
     cases = []
     for polarity in (True, False):
         s = z3.Solver()
         s.set("timeout", 20000)
         s.add(*e.constraints)
-        s.add(e.rows[0]["present"], sel if polarity else z3.Not(sel))
+        s.add(e.rows[0]["present"], e.n == 10, sel if polarity else z3.Not(sel))
         for k in range(4):
             t = time.time()
             r = s.check()
@@ -192,6 +201,8 @@ def validate_selection(sqls, parsed, bounds, stats):
         for qn in strings + ["aAb", "a%b", "Ab_"]:
             for mod, M in (("m", "m"), ("m", "M")):
                 cases.append((mod, qn, M, P))
+    if aux:
+        cases = cases[::12]  # every case then needs a (small) solver call
     checked, disagreements = 0, []
     conn = sqlite3.connect(":memory:")
     H.create_call_trace_table(conn)
@@ -200,13 +211,14 @@ def validate_selection(sqls, parsed, bounds, stats):
         conn.execute(f"INSERT INTO {H.DEFAULT_TABLE} VALUES ('2020-01-01', ?, ?, '{{}}', NULL, NULL)", (mod, qn))
         real_sql, values = H.make_query(H.DEFAULT_TABLE, M, P, 10)
         real = len(conn.execute(real_sql, values).fetchall()) == 1
-        term = z3.substitute(sel, (e.rows[0]["module"], z3.StringVal(mod)), (e.rows[0]["qualname"], z3.StringVal(qn)), (e.M, z3.StringVal(M)),
-                             (e.P, z3.StringVal(P)))
-        val = z3.simplify(term)
-        if z3.is_true(val) or z3.is_false(val):
+        subst = [(e.rows[0]["module"], z3.StringVal(mod)), (e.rows[0]["qualname"], z3.StringVal(qn)), (e.M, z3.StringVal(M)), (e.P, z3.StringVal(P)),
+                 (e.n, z3.IntVal(10)), (e.rows[0]["present"], z3.BoolVal(True))]
+        val = z3.simplify(z3.substitute(sel, *subst))
+        if not aux and (z3.is_true(val) or z3.is_false(val)):
             enc = z3.is_true(val)
         else:
             sv = z3.Solver()
+            sv.add(*[z3.substitute(c, *subst) for c in aux])
             sv.add(val)
             enc = str(sv.check()) == "sat"
         checked += 1
@@ -222,9 +234,14 @@ def validate_selection(sqls, parsed, bounds, stats):
 
 
 def run(tier):
-    jobs = [Job("harness.c09", "atomic", H.atomic_shards(), 240, bounds=dict(batch="1..4 traces", unserialisable="every subset", fault_position="0..n or none",
+    big = "atomic_big_quick" if tier == "quick" else "atomic_big"
+    jobs = [Job("harness.c09", big, H.big_shards(big), 300 if tier == "quick" else 1800,
+                bounds=dict(batch_sizes=[600] if tier == "quick" else list(H.BIG_SIZES), fault_positions=[500, None] if tier == "quick" else list(H.BIG_FAULTS),
+                            unserialisable=["none", "first", "last"]),
+                rule="one path = (batch size, fault position, unserialisable trace position); the whole batch must be one transaction", describe=H.describe),
+            Job("harness.c09", "atomic", H.atomic_shards(), 240, bounds=dict(batch="1..4 traces", unserialisable="every subset", fault_position="0..n or none",
                                                                          exception_classes=[e.__name__ for e in H.EXC], via=["SQLiteStore.add", "CallTraceStoreLogger.flush"]),
-                rule="one path = (batch size, unserialisable subset, fault position, exception class, entry point)", describe=H.describe)]
+                rule="one path = (batch size, unserialisable subset, fault position, exception class, entry point)", describe=H.describe)][::-1]
     return run_check(PID, tier, jobs, H.FUNCTIONS, ASSUMPTIONS, pre=lambda: e2_in_subprocess(tier))
 
 
